@@ -398,3 +398,89 @@ def _live_in(lp, v: str) -> bool:
         if first == "r":
             return True
     return False
+
+
+# ---------------------------------------------------------------------------------------------------------------------
+class GuardInliner:
+    """if not H(a): raise X     with H a boolean helper      ->   H's body with `return False` replaced by `raise X` and the final
+                                                                   `return True` dropped (control falls through to what follows)
+    Only for unknown private helpers whose last statement is the single `return <continue-value>` and whose other returns all
+    give the opposite constant; the guarded statements must end in raise / return (so that they may be moved into H's loops)."""
+    def __init__(self, lookup):
+        self.lookup = lookup
+        self.counter = 0
+
+    def expand(self, s: ast.If):
+        test, when_false = s.test, None
+        if isinstance(test, ast.UnaryOp) and isinstance(test.op, ast.Not) and isinstance(test.operand, ast.Call) and not s.orelse:
+            call, refuse_on, guarded = test.operand, False, s.body
+        elif isinstance(test, ast.Call) and s.orelse and all(isinstance(x, ast.Pass) for x in s.body):
+            call, refuse_on, guarded = test, False, s.orelse
+        elif isinstance(test, ast.Call) and not s.orelse:
+            call, refuse_on, guarded = test, True, s.body
+        else:
+            return None
+        if not guarded or not isinstance(guarded[-1], (ast.Raise, ast.Return)):
+            return None
+        r = self.lookup(call)
+        if r is None:
+            return None
+        m, skip = r[0], r[1]
+        prepare = r[2] if len(r) > 2 else None
+        if _own(real_body(m), (ast.Yield, ast.YieldFrom, ast.Await)) or m.args.vararg or m.args.kwarg:
+            return None
+        if skip and not (isinstance(call.func, ast.Attribute) and isinstance(call.func.value, ast.Name) and call.func.value.id == "self"):
+            return None
+        body = [copy.deepcopy(x) for x in real_body(m)]
+        if prepare:
+            body = prepare(body)
+        rets = _own(body, (ast.Return,))
+        if not rets or not isinstance(body[-1], ast.Return) or any(not (isinstance(x.value, ast.Constant) and isinstance(x.value.value, bool)) for x in rets):
+            return None
+        if body[-1].value.value is refuse_on or any(x.value.value is not refuse_on for x in rets if x is not body[-1]):
+            return None
+        binds = norm.bind_call(m, call, skip)
+        if binds is None:
+            return None
+        self.counter += 1
+        tag = f"_{m.name.strip('_')}{self.counter}q"
+        names = norm._assigned_names(body) | set(binds)
+        ren = {x: x + tag for x in names}
+        body = [norm._Rename(ren).visit(x) for x in body[:-1]]
+        inits = [ast.Assign(targets=[ast.Name(id=ren[p], ctx=ast.Store())], value=copy.deepcopy(a)) for p, a in binds.items()]
+
+        class R(ast.NodeTransformer):
+            def visit_Return(self, node):
+                return [copy.deepcopy(x) for x in guarded]
+
+            def visit_FunctionDef(self, node):
+                return node
+            visit_Lambda = visit_AsyncFunctionDef = visit_FunctionDef
+        body = [y for x in body for y in (lambda v: v if isinstance(v, list) else [v])(R().visit(x))]
+        new = inits + body
+        for n in new:
+            ast.copy_location(n, s)
+            ast.fix_missing_locations(n)
+        return new
+
+    def rec(self, stmts):
+        out = []
+        for s in stmts:
+            for fld in ("body", "orelse", "finalbody"):
+                b = getattr(s, fld, None)
+                if isinstance(b, list) and b and isinstance(b[0], ast.stmt) and not isinstance(s, (ast.FunctionDef, ast.AsyncFunctionDef, ast.ClassDef)):
+                    setattr(s, fld, self.rec(b))
+            if isinstance(s, ast.Try):
+                for h in s.handlers:
+                    h.body = self.rec(h.body)
+            if isinstance(s, ast.If):
+                new = self.expand(s)
+                if new is not None:
+                    out += new
+                    continue
+            out.append(s)
+        return out
+
+
+def inline_guard_helpers(stmts, lookup):
+    return GuardInliner(lookup).rec(stmts)
